@@ -13,6 +13,15 @@ import (
 
 func init() { Registry["C18"] = C18 }
 
+// the documented tables of the classifier, as private fixed tables are rendered (core.GlobalConst)
+const (
+	tcTableRoles      = `set‹"grid","treegrid"›`
+	tcDescendantRoles = `set‹"columnheader","gridcell","row","rowgroup","rowheader"›`
+	tcLandmarkRoles   = `set‹"application","banner","complementary","contentinfo","form","main","navigation","search"›`
+	tcHeaderTags      = `map‹"col":false,"colgroup":false,"th":true›`
+	tcObjectTags      = `map‹"applet":false,"embed":false,"iframe":false,"object":false›`
+)
+
 const classifierPkg = "mod/internal/tableclass"
 
 // C18: tables are classified by the documented rule cascade.
@@ -31,6 +40,7 @@ func C18(p *core.Program, r *core.Report) {
 	// canonical forms.
 	ddFn, rcFn := roles(p).directDescendants, roles(p).rowsAndColumns
 	classify := mustInl(p, r, "T1", "(*"+classifierPkg+".Classifier).Classify")
+	var classifyAtoms map[string]bool
 	if classify != nil {
 		opts := core.DecisionOpts{Outcome: func(in ssa.Instruction, c *core.Canon) (string, bool) {
 			if ret, ok := in.(*ssa.Return); ok {
@@ -46,6 +56,7 @@ func C18(p *core.Program, r *core.Report) {
 		if err != nil {
 			r.Undecided("T1", "Classify", err.Error())
 		}
+		classifyAtoms = atoms
 		r.Stats["classify_paths"] = len(paths)
 		r.Stats["classify_atoms"] = len(atoms)
 		td := `elem(μ(…append(…)…))`
@@ -59,11 +70,11 @@ func C18(p *core.Program, r *core.Report) {
 				"anc.input":         q(`dom.TagName(` + par + `) == "input"`),
 				"anc.editable":      q(`strings.ToLower(dom.GetAttribute(` + par + `,"contenteditable")) == "true"`),
 				"role.presentation": q(role + ` == "presentation"`),
-				"role.landmark":     q(`in(tableclass.ariaRoles,` + role + `)`),
-				"role.grid":         q(`in(tableclass.ariaTableRoles,` + role + `)`),
+				"role.landmark":     q(`in(` + tcLandmarkRoles + `,` + role + `)`),
+				"role.grid":         q(`in(` + tcTableRoles + `,` + role + `)`),
 				"loop.desc":         qw(`loop2(… < len(` + dd + `))`),
-				"desc.landmark":     q(`in(tableclass.ariaRoles,` + drole + `)`),
-				"desc.tablerole":    q(`in(tableclass.ariaTableDescendantRoles,` + drole + `)`),
+				"desc.landmark":     q(`in(` + tcLandmarkRoles + `,` + drole + `)`),
+				"desc.tablerole":    q(`in(` + tcDescendantRoles + `,` + drole + `)`),
 				"datatable0":        q(`dom.GetAttribute($1,"datatable") == "0"`),
 				"no.nested":         q(`len(dom.GetElementsByTagName($1,"table")) <= 0`),
 				"rows<=1":           q(`@rowsAndColumns($0,$1)#0 <= 1`),
@@ -72,7 +83,7 @@ func C18(p *core.Program, r *core.Report) {
 				"caption.text":      q(`@hasValidText($0,dom.QuerySelector($1,"caption"))`),
 				"no.thead":          q(`dom.QuerySelector($1,"thead") == nil`),
 				"no.tfoot":          q(`dom.QuerySelector($1,"tfoot") == nil`),
-				"header.tags":       q(`@hasOneOf($0,` + dd + `,tableclass.headerTags)`),
+				"header.tags":       q(`@hasOneOf($0,` + dd + `,` + tcHeaderTags + `)`),
 				"loop.collect":      qw(`loop3(… < len(` + dd + `))`),
 				"collect.td":        q(`dom.TagName(elem(` + dd + `)) == "td"`),
 				"loop.td":           qw(`loop4(… < len(μ(…append(…)…)))`),
@@ -85,7 +96,7 @@ func C18(p *core.Program, r *core.Report) {
 				"cols<=4":           q(`@rowsAndColumns($0,$1)#1 <= 4`),
 				"rows<=19":          q(`@rowsAndColumns($0,$1)#0 <= 19`),
 				"cells<=10":         qw(`len(μ(…append(…)…)) <= 10`),
-				"object.tags":       q(`@hasOneOf($0,` + dd + `,tableclass.objectTags)`),
+				"object.tags":       q(`@hasOneOf($0,` + dd + `,` + tcObjectTags + `)`),
 			},
 			Rules: []core.SpecRule{
 				{"1 editable ancestor -> layout", core.And(core.Not(core.A("loop.ancestors")), core.Or(core.A("anc.input"), core.A("anc.editable"))), "Layout/InsideEditableArea"},
@@ -115,42 +126,21 @@ func C18(p *core.Program, r *core.Report) {
 		r.Floor("T1-atom", 31)
 	}
 
-	// T2: literal tables
-	pkg := p.AllPkgs[core.ExpandKey(classifierPkg)]
-	if pkg == nil {
-		r.Undecided("T2", "package tableclass", "package not loaded")
-	} else {
-		want := map[string][]string{
-			"ariaTableRoles":           {"grid", "treegrid"},
-			"ariaTableDescendantRoles": {"gridcell", "columnheader", "row", "rowgroup", "rowheader"},
-			"ariaRoles":                {"application", "banner", "complementary", "contentinfo", "form", "main", "navigation", "search"},
-			"headerTags":               {"colgroup", "col", "th"},
-			"objectTags":               {"embed", "object", "applet", "iframe"},
-		}
-		var names []string
-		for n := range want {
-			names = append(names, n)
-		}
-		sort.Strings(names)
-		for _, n := range names {
-			keys, vals := core.MapLiteralKeys(pkg, n)
-			if keys == nil {
-				r.Undecided("T2", "table "+n, "package-level map literal not found")
-				continue
-			}
-			ok := sameSet(keys, want[n])
-			r.Add("T2", "tableclass."+n+" keys", "", ok, fmt.Sprintf("keys=%v documented=%v", keys, want[n]))
-			if n == "headerTags" {
-				// th needs valid text, colgroup/col do not
-				s := ""
-				for _, k := range keys {
-					if id, ok2 := vals[k].(interface{ String() string }); ok2 {
-						_ = id
-					}
-					s += k + "=" + exprText(vals[k]) + " "
+	// T2: the documented tables are the ones Classify consults. Private tables are rendered by
+	// content in canonical forms, so the T1 atoms above pin keys and values; T2 records, per
+	// documented table, that some branch condition of Classify consults exactly that table.
+	if classifyAtoms != nil {
+		atoms := classifyAtoms
+		for _, t := range []struct{ name, content string }{
+			{"grid/treegrid roles", tcTableRoles}, {"table-part roles of descendants", tcDescendantRoles}, {"landmark roles", tcLandmarkRoles},
+			{"header tags (th needs text, col/colgroup do not)", tcHeaderTags}, {"object tags", tcObjectTags}} {
+			n := 0
+			for a := range atoms {
+				if strings.Contains(a, t.content) {
+					n++
 				}
-				r.Add("T2", "tableclass.headerTags values", "", strings.Contains(s, "th=true") && strings.Contains(s, "col=false") && strings.Contains(s, "colgroup=false"), s)
 			}
+			r.Add("T2", "table of "+t.name, "", n > 0, fmt.Sprintf("%d branch conditions of Classify consult %s", n, t.content))
 		}
 	}
 
